@@ -414,8 +414,28 @@ def procs(tier, seed):
 
 
 def prop_procs_replay(case):
-    """Replay of a procs failure: recompute the batch in-process with two thread counts."""
-    raise Discard("process-matrix failures are replayed by re-running ./check C10 quick --sub procs with the same VERIF_SEED")
+    """Replay of a process-matrix failure: recompute the batch in fresh processes with the recorded thread counts."""
+    threads = case["threads"] if isinstance(case["threads"], list) else [1, case["threads"]]
+    root = str(Path(__file__).resolve().parent.parent.parent)
+    res = {}
+    with tempfile.TemporaryDirectory() as tmp:
+        for t in threads:
+            env = dict(os.environ)
+            env.update(NUMBA_NUM_THREADS=str(t), VERIF_C10_THREADS=str(t))
+            out = os.path.join(tmp, f"t{t}.npz")
+            p = subprocess.run([sys.executable, "-c", f"import sys; sys.path.insert(0, {root!r}); from vlib.props import c10; c10.child_main({case['seed']}, {case['n']}, {out!r})"],
+                               env=env, cwd=root, capture_output=True, timeout=1800)
+            if p.returncode != 0:
+                raise RuntimeError(p.stderr.decode()[-1000:])
+            res[t] = dict(np.load(out))
+    a, b = res[threads[0]], res[threads[-1]]
+    for name in a:
+        check(name in b and same_vector(a[name], b[name]) is not None, "procs.objective_differs_across_processes_or_threads", lambda: f"{name}: threads {threads}")
+    for i in range(case["n"]):
+        for r_ in (a, b):
+            if f"c{i}_x0" in r_ and f"c{i}_x0b" in r_:
+                check(same_vector(r_[f"c{i}_x0"], r_[f"c{i}_x0b"]) is not None, "procs.repeat_differs", lambda: f"case {i}")
+    return {"nontrivial": True, "tags": ["replay"]}
 
 
 PROPERTY = Property(
